@@ -1,6 +1,6 @@
 //! C01 – extras of the "unsafe inventory": the safe functions and macros sitting on an unsafe
 //! block that no other sub-command drives (maybe_uninit, manually_drop, ptr, from_utf8,
-//! collect_const!/from_iter!/str_concat!/slice_concat! evaluated at run time inside fns, DSL over
+//! DSL over
 //! mutable slices, try_into_array on Drop/ZST element types ...).
 //! The C01 check runs this together with c02..c20 under Miri (both aliasing models), natively in
 //! all build variants (boundary monitors, std ub_checks), and the CTFE programs (gen/gen_c01.py).
@@ -139,34 +139,9 @@ fn utf8(r: &mut Report, cfg: &Cfg) {
 
 /// macro forms wrapping unsafe blocks, evaluated at run time inside ordinary fns (Miri sees them)
 fn macro_forms(r: &mut Report) {
-    use konst::iter::collect_const;
-    const A: [u32; 3] = collect_const!(u32 => &[1u32, 2, 3], copied(), map(|x| x * 2));
-    r.ev("collect_const!");
-    r.eq("collect_const!", || "copied,map".into(), &A, &[2, 4, 6]);
-    const B: [&u8; 0] = collect_const!(&u8 => &[] as &[u8]);
-    r.ev("collect_const!:empty");
-    r.eq("collect_const!", || "empty".into(), &B.len(), &0);
-    const C: [(usize, char); 3] = collect_const!((usize, char) => konst::string::char_indices("añ個"));
-    r.ev("collect_const!:char_indices");
-    r.eq("collect_const!", || "char_indices".into(), &C, &[(0, 'a'), (1, 'ñ'), (3, '個')]);
-    const D: &str = konst::string::str_concat!(&["ab", "ñ", "", "個🙂"]);
-    r.ev("str_concat!");
-    r.eq("str_concat!", || "".into(), &D, &"abñ個🙂");
-    const E: &str = konst::string::str_join!("🙂", &["a", "", "ñ"]);
-    r.ev("str_join!");
-    r.eq("str_join!", || "".into(), &E, &"a🙂🙂ñ");
-    const F: &str = konst::string::from_iter!(&["x", "個"], flat_map(|s| konst::string::chars(s)), map(|c| c));
-    r.ev("string::from_iter!");
-    r.eq("string::from_iter!", || "".into(), &F, &"x個");
-    const G: [u16; 5] = konst::slice::slice_concat!(u16, &[&[1, 2], &[], &[3, 4, 5]]);
-    r.ev("slice_concat!");
-    r.eq("slice_concat!", || "".into(), &G, &[1, 2, 3, 4, 5]);
-    for s in [D, E, F] {
-        r.boundary_checks += 1;
-        if core::str::from_utf8(s.as_bytes()).is_err() {
-            r.fail("C01:invalid-utf8", "concat macros", format!("{:?}", s.as_bytes()), "invalid".into(), "valid UTF-8".into());
-        }
-    }
+    // (the const-only macro forms - collect_const!, str_concat!, str_join!, from_iter!, slice_concat! - live in the
+    // generated CTFE crate of gen_c01: a const item here would make the whole harness unbuildable, and every check
+    // INCONCLUSIVE, whenever a change breaks their const evaluation)
     // runtime evaluation of the iterator DSL over slices of Drop / zero-sized elements
     let toks: [Tok; 4] = core::array::from_fn(|i| Tok::new(i as u32));
     let mut seen = Vec::new();
@@ -218,7 +193,7 @@ pub fn run(cfg: &Cfg) -> (&'static str, Report, String, String) {
     (
         "C01",
         rep,
-        "maybe_uninit (uninit_array/UNINIT/UNINIT_ARRAY/write/as_mut_ptr/array_assume_init for N in {0,1,2,5}, String/u64/()/Box), manually_drop, ptr::is_null/nonnull::new on null/dangling/in-bounds/one-past/out-of-bounds pointers incl. slice pointers, nonnull::from_ref/from_mut/as_ref/as_mut, from_utf8 over all byte strings (<= 3 or 4 bytes) of 20 bytes covering every UTF-8 byte class, const macro forms (collect_const!, str_concat!, str_join!, from_iter!, slice_concat!), DSL over Drop/ZST elements, try_into_array(_mut) on Drop/ZST elements".into(),
+        "maybe_uninit (uninit_array/UNINIT/UNINIT_ARRAY/write/as_mut_ptr/array_assume_init for N in {0,1,2,5}, String/u64/()/Box), manually_drop, ptr::is_null/nonnull::new on null/dangling/in-bounds/one-past/out-of-bounds pointers incl. slice pointers, nonnull::from_ref/from_mut/as_ref/as_mut, from_utf8 over all byte strings (<= 3 or 4 bytes) of 20 bytes covering every UTF-8 byte class, DSL over Drop/ZST elements, try_into_array(_mut) on Drop/ZST elements".into(),
         "one evaluation = one call of a safe function or macro that wraps an unsafe block, compared with its std counterpart; the deciding oracle for C01 is the engine the workload runs under (Miri / rustc const evaluation / std ub_checks) plus the containment + UTF-8 monitors; non-trivial = distinct valid multi-byte from_utf8 inputs and the macro-form groups".into(),
     )
 }
